@@ -135,6 +135,7 @@ WHY = [
     ("SEM", r'Cannot use "\?=" operator on multiple', "multibool"),
     ("SEM", r"Primitive type instances can not be referenced", "primref"),
     ("SEM", r"Can't use bool assignment inside repetition", "boolrep"),
+    ("SEM", r'assigned by "\?=" in rule .* can collect multiple values', "boolmany"),
     ("PLAIN", r"param split requires", "split"),
     ("REG", r"not registered", "registration"),
 ]
